@@ -196,6 +196,18 @@ def _closure(sc: Any) -> list[Any]:
     return out
 
 
+MAX_PRODUCT_UNITS = 256
+
+
+def _too_big(a: Any, b: Any) -> bool:
+    """Bound of the workload (DESIGN.md 2.4): the product of two circuits has layers of
+    width(a) * width(b) units; products of products of Kronecker circuits were observed to need
+    9 GiB and 100 s for one run, which says nothing about the registry."""
+    wa = max(l.num_output_units for l in a.layers)
+    wb = max(l.num_output_units for l in b.layers)
+    return wa * wb > MAX_PRODUCT_UNITS
+
+
 # ---------------------------------------------------------------------------
 # world
 
@@ -280,6 +292,13 @@ class WorldB:
             ops = sc.operation.operands if sc.operation is not None else ()
             m = dict(self.meta(ops[0])) if ops else {"domain": ("discrete", 2), "nv": 1, "norule": False}
             m["norule"] = any(self.meta(o).get("norule") for o in ops)
+            # probe inputs must lie in the domain of every operand (e.g. concatenate / multiply
+            # of categoricals with 3 and 2 categories: only states {0, 1} are valid for both)
+            doms = [self.meta(o)["domain"] for o in ops]
+            if doms and all(d[0] == "discrete" for d in doms):
+                m["domain"] = ("discrete", min(d[1] for d in doms))
+            if ops:
+                m["nv"] = max(self.meta(o)["nv"] for o in ops)
             self.meta_of_sc[id(sc)] = m
         return m
 
@@ -385,19 +404,50 @@ class WorldB:
                 if self.ctx_obj(cj).is_compiled(sc) != has:
                     raise Violation("B1", f"context {cj}.is_compiled disagrees with the model on a pool circuit")
 
-    def evaluate_ok(self, ci: int, sc: Any, cc: Any, where: str) -> torch.Tensor | None:
+    def _probe_batch(self, sc: Any, cc: Any) -> np.ndarray | None:
+        if len(cc.scope) == 0:
+            return None
         m = self.meta(sc)
+        rng = random.Random(self.plan["probe_seed"] + m["nv"])
+        return recipes.probe_inputs(rng, m["domain"], m["nv"], 2)
+
+    def evaluate_ok(self, ci: int, sc: Any, cc: Any, where: str) -> torch.Tensor | None:
         try:
-            if len(cc.scope) == 0:
-                return oracles.evaluate(cc, None)
-            rng = random.Random(self.plan["probe_seed"] + m["nv"])
-            X = recipes.probe_inputs(rng, m["domain"], m["nv"], 2)
-            return oracles.evaluate(cc, X)
+            return oracles.evaluate(cc, self._probe_batch(sc, cc))
         except Exception as e:
             if where == "after-fault":
-                raise Violation("F1", f"a circuit reported compiled after an injected fault does not evaluate: {type(e).__name__}: {str(e)[:100]}")
+                # F1 is differential: "does not evaluate" is a consequence of the fault only if
+                # the same symbolic circuit, compiled with the same flags in a fresh context
+                # without any fault, does evaluate on the same input.  Circuits that never
+                # evaluate (shape errors of unclaimed operator / folding defects, inputs
+                # outside the domain of one operand) are excluded at birth, as in W-A.
+                ref = self._fresh_evaluates(ci, sc)
+                if ref is None:
+                    raise Violation("F1", f"a circuit reported compiled after an injected fault does not evaluate (a fault-free compilation in a fresh context does): {type(e).__name__}: {str(e)[:100]}")
+                self.tr.count(f"birth-excluded:after-fault:{type(e).__name__}")
+                self.tr.ev("birth-excluded", type(e).__name__, ref)
+                return None
             self.tr.count(f"eval-failed:{type(e).__name__}")
             return None
+
+    def _fresh_evaluates(self, ci: int, sc: Any) -> str | None:
+        """None if ``sc`` compiles and evaluates in a fresh fault-free context with the flags of
+        context ``ci``; otherwise the class name of what it raises."""
+        from cirkit.pipeline import PipelineContext
+
+        saved = (FAULT_SEAM.armed, FAULT_SEAM.observer)
+        FAULT_SEAM.armed = False
+        FAULT_SEAM.observer = None
+        try:
+            c = PipelineContext(backend="torch", **self.ctx_flags[ci])
+            seed_rng(self.plan["probe_seed"])
+            rcc = c.compile(sc)
+            oracles.evaluate(rcc, self._probe_batch(sc, rcc))
+            return None
+        except Exception as e:
+            return type(e).__name__
+        finally:
+            FAULT_SEAM.armed, FAULT_SEAM.observer = saved
 
     # -------------------------------------------------------------- interpreter
 
@@ -622,6 +672,9 @@ class WorldB:
                 vs = [v for k, v in enumerate(sorted(a.scope)) if (op["scope_bits"] >> k) & 1]
                 res = SF.integrate(a, scope=Scope(vs) if vs else None)
             elif opr == "multiply":
+                if _too_big(a, b):
+                    self.tr.count("bound:multiply-too-big")
+                    return "noop"
                 res = SF.multiply(a, b)
             elif opr == "conjugate":
                 res = SF.conjugate(a)
@@ -674,6 +727,9 @@ class WorldB:
         if opr == "differentiate":
             kwargs["order"] = op["order"]
             exp_meta["order"] = op["order"]
+        if opr == "multiply" and _too_big(args[0][1], args[1][1]):
+            self.tr.count("bound:multiply-too-big")
+            return "noop"
         fn = getattr(P, opr)
         before = {cj: len(self.pairs[cj]) for cj in self.pairs}
         seed_rng(op["seed"])
@@ -695,13 +751,18 @@ class WorldB:
         except Exception as e:
             self._commit_pending(ci, None, failed=True)
             if foreign:
-                raise Violation("O1", f"operator on a circuit of another context raised {type(e).__name__} instead of ValueError")
+                # the docstrings promise ValueError; C18 only needs the call to be refused and
+                # to leave every registry as it was - the exception class is recorded, not judged
+                if any(len(self.pairs[cj]) != before[cj] for cj in self.pairs):
+                    raise Violation("O1", "a refused operator call on a foreign circuit registered something")
+                self.tr.count(f"refusal:foreign:{type(e).__name__}")
+                return "refused:foreign"
             self.tr.count(f"refusal:{type(e).__name__}")
             return f"refused:{type(e).__name__}"
         if foreign:
             raise Violation("O1", f"{opr} accepted a compiled circuit that is not known in the pipeline context it was applied in")
         if opr == "differentiate" and op["order"] <= 0:
-            raise Violation("O2", "differentiate accepted a non-positive order")
+            self.tr.count("operator:nonpositive-order-accepted")  # C09's subject, not C18's
         new = self._commit_pending(ci, None, failed=False)
         ctx = self.ctxs[ci]
         if not ctx.has_symbolic(cc):
